@@ -56,6 +56,12 @@ PROPS = {
         'not_decided': ['the composition find | xargs as a lemma over the two contracts (L-c07) is stated in DESIGN.md, not machine-checked'],
         'unclaimed': True,
     },
+    'C14': {
+        'level': 'proof',
+        'explanation': 'ComparableValue::{matches, imatches} == the N/+N/-N reading of the statement over mathematical integers (all u64/i64), with trichotomy and monotonicity as lemmas; byte_size_to_unit_size == ceil(bytes / unit) for the six units (shifts discharged by bit_vector); Unit::from_str == the suffix table; the two operand parsers return exactly sign/digits(/suffix) of the whole operand, accept every well-formed operand that fits u64 and reject the rest.',
+        'assumptions': ['the regex crate implements the two literal operand patterns as their syntax says (contract keyed on the literal text, which the extraction rule matches verbatim)', 'str::parse::<u64> on a non-empty digit string: Ok(value) iff it fits'],
+        'not_decided': ['that each numeric primary feeds the right measured value into ComparableValue::matches is decided per primary in units stat/time (C13, C15)'],
+    },
 }
 for k in PROPS.values():
     k.setdefault('trusted', [])
